@@ -290,8 +290,40 @@ func (g *gen) files() []NamedRecs {
 }
 
 func baseCase(g *gen, family string, hostile bool) *Case {
-	return &Case{Family: family, Args: genArgs(g.r, hostile), Stdin: genRecs(g.r, 3), Files: g.files(), Cmds: cmdPool,
+	c := baseCaseRaw(g, family, hostile)
+	// input mode: default mostly; CSV / TSV set by the Config or by INPUTMODE in BEGIN
+	switch g.r.Intn(10) {
+	case 0, 1:
+		c.setMode("csv", g.r.Pick([]string{"config", "begin"}))
+	case 2:
+		c.setMode("tsv", g.r.Pick([]string{"config", "begin"}))
+	}
+	return c
+}
+
+func baseCaseRaw(g *gen, family string, hostile bool) *Case {
+	c := &Case{Family: family, Args: genArgs(g.r, hostile), Stdin: genRecs(g.r, 3), Files: g.files(), Cmds: cmdPool,
 		NoArgVars: g.r.Intn(25) == 0, NoNL: g.r.Intn(6) == 0}
+	return c
+}
+
+// setMode switches the case to CSV/TSV input and turns the blanks of its records into separators
+func (c *Case) setMode(mode, via string) {
+	c.Mode, c.ModeVia = mode, via
+	sep := string(rune(c.modeSep()))
+	conv := func(l []string) []string {
+		out := make([]string, len(l))
+		for i, r := range l {
+			out[i] = strings.ReplaceAll(strings.ReplaceAll(r, "\t", ""), " ", sep)
+		}
+		return out
+	}
+	c.Stdin = conv(c.Stdin)
+	files := make([]NamedRecs, len(c.Files))
+	for i, f := range c.Files {
+		files[i] = NamedRecs{f.Name, conv(f.Recs)}
+	}
+	c.Files = files
 }
 
 // genFuncs: f0 and f2 never unwind; f1 may contain next/nextfile/exit.
@@ -483,6 +515,68 @@ func genSystematic() []*Case {
 				mk("sys-getline", args, Prog{Rules: []Rule{{Kind: "pn", Body: []Stmt{{Op: "CALL", N: 0}, tr(2)}}}, Funcs: []Func{{Local: "l0", Body: fb}}})
 				// while loop
 				mk("sys-getline", args, Prog{Rules: []Rule{{Kind: "pe", P1: Pattern{C: &Cond{Op: "nr", K: 1}}, Body: []Stmt{{Op: "W", Src: s, Tgt: t, A: []Stmt{tr(3, "g1", "a[0]")}}, tr(4)}}, {Kind: "pn", Body: []Stmt{tr(2)}}}, End: []Stmt{tr(9)}})
+			}
+		}
+	}
+	// input mode x getline into a variable x "a field / NF of the current record was or was not used before
+	// the getline" x where it happens (plain rule, pattern rule, range rule, END); the trace after it shows
+	// $0, NF, every field, NR, FNR, FILENAME and the variable
+	{
+		hasS, hasE := &Cond{Op: "has", K: 'S'}, &Cond{Op: "has", K: 'E'}
+		modeFiles := func() []NamedRecs {
+			f := map[string][]string{"f1": {"p a 1", "a S x", "m  n", "", "E a", "z"}, "f2": {"k1 k2 k3", "l1"}, "f3": {}}
+			var out []NamedRecs
+			for _, n := range fileNames {
+				out = append(out, NamedRecs{n, f[n]}, NamedRecs{"./" + n, f[n]})
+			}
+			return out
+		}
+		type mv struct{ mode, via string }
+		for _, m := range []mv{{"", ""}, {"csv", "config"}, {"csv", "begin"}, {"tsv", "config"}, {"tsv", "begin"}} {
+			for _, src := range []Src{{K: 'm'}, {K: 'f', Name: "f2"}, {K: 'f', Name: "-"}, {K: 'c', Name: cmdPool[0].Name}} {
+				for ti, tgt := range []Tgt{{K: 'v', Name: "g1"}, {K: 'v', Name: "a[1]"}, {K: 'v', Name: "l0"}, {K: 'l'}, {K: 'd', N: 2}} {
+					for _, touched := range []bool{false, true} {
+						for ctxi, ctxName := range []string{"rule", "pattern-rule", "range-rule", "END"} {
+							if src.K == 'c' && (ti != 0 || ctxi != 0 || m.via == "begin") {
+								continue // commands: a few cases only (a process spawn is expensive)
+							}
+							if tgt.K != 'v' && (ctxi > 1 || m.via == "begin") {
+								continue // plain getline / getline $n: the field-changing forms, fewer contexts
+							}
+							names := []string{"g0", "g1", "a[1]"}
+							g := []Stmt{{Op: "G", Src: src, Tgt: tgt}}
+							var funcs []Func
+							if tgt.Name == "l0" {
+								funcs = []Func{{Local: "l0", Body: []Stmt{{Op: "G", Src: src, Tgt: tgt}, {Op: "T", Tag: 5, Names: []string{"l0"}}}}}
+								g = []Stmt{{Op: "CALL", N: 0}}
+							}
+							var body []Stmt
+							if touched {
+								body = append(body, Stmt{Op: "T", Tag: 0, Names: names})
+							}
+							body = append(body, g...)
+							body = append(body, Stmt{Op: "T", Tag: 1, Names: names})
+							var p Prog
+							switch ctxName {
+							case "rule":
+								p = Prog{Rules: []Rule{{Kind: "pn", Body: body}}, End: []Stmt{tr(9)}}
+							case "pattern-rule":
+								p = Prog{Rules: []Rule{{Kind: "pe", P1: Pattern{C: &Cond{Op: "has", K: 'a'}, Inline: true}, Body: body}, {Kind: "pn", Body: []Stmt{tr(2)}}}}
+							case "range-rule":
+								p = Prog{Rules: []Rule{{Kind: "pr", P1: Pattern{C: hasS, Inline: true}, P2: Pattern{C: hasE, Inline: true}, Body: body}}, End: []Stmt{tr(9)}}
+							case "END":
+								p = Prog{Rules: []Rule{{Kind: "pe", P1: Pattern{C: hasS, Inline: true}, Body: []Stmt{}}}, End: body}
+							}
+							p.Funcs = funcs
+							c := mk("sys-getline-mode", []string{"f1", "f2"}, p)
+							c.Stdin = []string{"s1 s2", "", "t"}
+							c.Files = modeFiles()
+							if m.mode != "" {
+								c.setMode(m.mode, m.via)
+							}
+						}
+					}
+				}
 			}
 		}
 	}
